@@ -142,9 +142,11 @@ that future cancelled at once and a wake-up queued: the cancellation is delivere
 asyncio Task is as undone as before. So the next `cancel(id)` / `stop` / `cancel_group` finds it running, accepts its
 id (`C06_all_or_nothing`) and delivers the `CancelledError` at this later suspension point (`C06_delivery`:
 `wakesOnCancel` holds for it, see `C06_later_await_cancellable`). `tk` is the record the step read, `k` the record as
-filed while the step runs (as in `C06_survivor_still_running`). -/
+filed while the step runs (as in `C06_survivor_still_running`). Stated for a worker that makes no pool call of its own
+between the two awaits (`hooks.next = []`); what the step does when it makes some is `C06_later_await_with_calls`. -/
 theorem C06_later_await_is_running (p : Pool) (t : Nat) (tk k : PTask) (hk : p.tasks[t]? = some k)
-    (hc : (tk.fut == .cancelled || tk.mustCancel) = false) (hf : tk.fut = .ok) (ha : tk.awaitsLeft > 0) :
+    (hc : (tk.fut == .cancelled || tk.mustCancel) = false) (hf : tk.fut = .ok) (ha : tk.awaitsLeft > 0)
+    (hn : (p.reqOf tk).hooks.next = []) :
     (p.stepInWorker t tk).running = p.running ∧ (p.stepInWorker t tk).cancelledR = p.cancelledR ∧
     (p.stepInWorker t tk).ended = p.ended ∧ (p.stepInWorker t tk).counters = p.counters ∧
     (p.stepInWorker t tk).sem = p.sem ∧ (p.stepInWorker t tk).reqs = p.reqs ∧ (p.stepInWorker t tk).groups = p.groups ∧
@@ -155,12 +157,13 @@ theorem C06_later_await_is_running (p : Pool) (t : Nat) (tk k : PTask) (hk : p.t
       k'.outcome = k.outcome ∧ k'.released = k.released ∧ k'.awaitsLeft = k.awaitsLeft - 1 ∧
       (if k.mustCancel then k'.fut = .cancelled ∧ k'.sched = true ∧ (p.stepInWorker t tk).emit = p.emit ++ [.task t]
        else k'.fut = .pending ∧ k'.sched = k.sched ∧ (p.stepInWorker t tk).emit = p.emit) := by
-  have hstep : p.stepInWorker t tk = p.workerNext t := by
+  have hstep : p.stepInWorker t tk = p.workerNext t tk := by
     unfold stepInWorker
     rw [if_neg (by rw [hc]; exact Bool.false_ne_true)]
     simp only [hf, ha, if_true]
   rw [hstep]
   unfold workerNext
+  simp only [hn, runHooks, List.foldl_nil]
   have h1 : ((p.logEv (.next t)).modTask t fun k => { k with awaitsLeft := k.awaitsLeft - 1 }).tasks[t]? =
       some { k with awaitsLeft := k.awaitsLeft - 1 } := by
     simp [modTask, logEv, List.getElem?_modify, hk]
@@ -184,10 +187,11 @@ theorem C06_later_await_is_running (p : Pool) (t : Nat) (tk k : PTask) (hk : p.t
 /-- the same at the level of the handle: running the wake-up handle of a task whose worker awaited a future that
 completed normally, with further `await`s ahead and no cancellation pending, leaves the registries alone and the task
 suspended on a pending future — so `Task.cancel()` on it cancels that future and queues a wake-up (`wakesOnCancel`, the
-premise of the second branch of `C06_delivery`) -/
+premise of the second branch of `C06_delivery`). For a worker without pool calls of its own between the two awaits, as
+`C06_later_await_is_running` -/
 theorem C06_later_await_cancellable (p : Pool) (t : Nat) (tk : PTask) (hk : p.tasks[t]? = some tk)
     (hs : tk.sched = true) (hph : tk.phase = .inWorker) (hf : tk.fut = .ok) (hm : tk.mustCancel = false)
-    (ha : tk.awaitsLeft > 0) (ho : tk.outcome = none) :
+    (ha : tk.awaitsLeft > 0) (ho : tk.outcome = none) (hn : (p.reqOf tk).hooks.next = []) :
     (p.stepTask t).running = p.running ∧ (p.stepTask t).cancelledR = p.cancelledR ∧ (p.stepTask t).ended = p.ended ∧
     (p.stepTask t).sem = p.sem ∧ (p.stepTask t).wakesOnCancel t = true ∧ (p.stepTask t).log = p.log ++ [.next t] := by
   unfold stepTask
@@ -195,13 +199,159 @@ theorem C06_later_await_cancellable (p : Pool) (t : Nat) (tk : PTask) (hk : p.ta
   have h0 : (p.modTask t fun k => { k with sched := false }).tasks[t]? = some { tk with sched := false } := by
     simp [modTask, List.getElem?_modify, hk]
   obtain ⟨a1, a2, a3, _, a5, _, _, _, _, _, a11, _, k', b1, b2, _, b4, _, _, b7⟩ :=
-    C06_later_await_is_running (p.modTask t fun k => { k with sched := false }) t tk _ h0 (by simp [hf, hm]) hf ha
+    C06_later_await_is_running (p.modTask t fun k => { k with sched := false }) t tk _ h0 (by simp [hf, hm]) hf ha hn
   simp only [hm, Bool.false_eq_true, if_false] at b7
   refine ⟨a1, a2, a3, a5, ?_, a11⟩
   unfold wakesOnCancel
   rw [b1]
   have : k'.outcome = none := by rw [b4]; exact ho
   simp [this, b2, b7.1]
+
+/-! ### pool calls the worker makes between two awaits (`hooks.next`) -/
+
+theorem modify_congr_at {α} (l : List α) (i : Nat) (f g : α → α) (h : ∀ a, l[i]? = some a → f a = g a) :
+    l.modify i f = l.modify i g := by
+  apply List.ext_getElem?
+  intro j
+  simp only [List.getElem?_modify]
+  split
+  · rename_i hij
+    subst hij
+    cases hl : l[i]? with
+    | none => rfl
+    | some a => simp [h a hl]
+  · rfl
+
+/-- suspending a task in the phase it is in changes nothing a slot, a registry or a counter depends on -/
+theorem tame_suspendTask_same (p : Pool) (t : Nat) (ph : Phase) (h : ∀ k, p.tasks[t]? = some k → k.phase = ph) :
+    Tame p (p.suspendTask t ph) := by
+  unfold suspendTask
+  split
+  · exact Tame.refl p
+  · rename_i k hk
+    have hph := h k hk
+    split
+    · have e : (p.modTask t fun k => { k with phase := ph, fut := .cancelled, mustCancel := false }) =
+          p.modTask t fun k => { k with fut := .cancelled, mustCancel := false } := by
+        unfold modTask
+        rw [modify_congr_at p.tasks t _ (fun k => { k with fut := .cancelled, mustCancel := false })]
+        intro a ha
+        rw [hk] at ha; cases ha
+        rw [← hph]
+      rw [e]
+      exact (tame_modTask p t _).trans (tame_schedTask _ t)
+    · have e : (p.modTask t fun k => { k with phase := ph, fut := .pending }) =
+          p.modTask t fun k => { k with fut := .pending } := by
+        unfold modTask
+        rw [modify_congr_at p.tasks t _ (fun k => { k with fut := .pending })]
+        intro a ha
+        rw [hk] at ha; cases ha
+        rw [← hph]
+      rw [e]
+      exact tame_modTask p t _
+
+/-- what `suspendTask` leaves of the record of the task it suspends -/
+theorem suspendTask_at (q : Pool) (t : Nat) (ph : Phase) (k : PTask) (hk : q.tasks[t]? = some k) :
+    ∃ k', (q.suspendTask t ph).tasks[t]? = some k' ∧ k'.phase = ph ∧ k'.mustCancel = false ∧
+      k'.outcome = k.outcome ∧ k'.released = k.released ∧ k'.awaitsLeft = k.awaitsLeft ∧
+      (if k.mustCancel then k'.fut = .cancelled ∧ k'.sched = true else k'.fut = .pending ∧ k'.sched = k.sched) := by
+  unfold suspendTask
+  simp only [hk]
+  cases hm : k.mustCancel with
+  | false =>
+    simp only [Bool.false_eq_true, if_false]
+    exact ⟨{ k with phase := ph, fut := .pending }, getElem?_modify_eq _ _ _ _ hk, rfl, hm, rfl, rfl, rfl, rfl, rfl⟩
+  | true =>
+    simp only [if_true]
+    refine ⟨{ k with phase := ph, fut := .cancelled, mustCancel := false, sched := true }, ?_, rfl, rfl, rfl, rfl, rfl, rfl, rfl⟩
+    simp [schedTask, emitRef, modTask, List.getElem?_modify, hk]
+
+/-- the step to a later await, taken apart: the log entry `N t` and one await less (the step of a worker that makes no
+pool call there, up to its suspension), then the pool calls of the user code between the two awaits, *then* the
+suspension on a fresh future — so a `Task.cancel()` the worker's own calls aim at the worker itself finds it running
+(not suspended), sets `must_cancel`, and is delivered by `suspendTask` at the await that follows -/
+theorem C06_workerNext_eq (p : Pool) (t : Nat) (tk : PTask) :
+    p.workerNext t tk =
+      (((p.logEv (.next t)).modTask t fun k => { k with awaitsLeft := k.awaitsLeft - 1 }).runHooks tk.req
+        (p.reqOf tk).hooks.next).suspendTask t .inWorker := rfl
+
+/-- without pool calls between the two awaits the step is the one `C06_later_await_is_running` describes -/
+theorem C06_workerNext_no_calls (p : Pool) (t : Nat) (tk : PTask) (hn : (p.reqOf tk).hooks.next = []) :
+    p.workerNext t tk =
+      ((p.logEv (.next t)).modTask t fun k => { k with awaitsLeft := k.awaitsLeft - 1 }).suspendTask t .inWorker := by
+  unfold workerNext
+  simp only [hn, runHooks, List.foldl_nil]
+
+/-- **whatever the worker calls on the pool between two awaits, it is for the pool the running task it was**: the step
+that resumes a worker (of a task filed in its worker, `k.phase = .inWorker`) and takes it to a later await is `Tame` —
+user code never moves a slot: the semaphore's value, the three registries (so the counters), `lost`, the number of
+tasks and every task's phase / `released` / callback counters / request / map slot are what they were —, and it leaves
+the task in its worker, its asyncio Task as undone as before, no cancellation pending, awaiting a future that is either
+pending (`wakesOnCancel` holds: the next `cancel(id)` is delivered there, `C06_delivery`) or already cancelled with the
+wake-up queued (`sched`) — the case of a worker that cancelled itself, its group or everything from between the awaits:
+that cancellation is delivered at the await that follows. -/
+theorem C06_later_await_with_calls (p : Pool) (t : Nat) (tk k : PTask) (hk : p.tasks[t]? = some k)
+    (hph : k.phase = .inWorker) :
+    Tame p (p.workerNext t tk) ∧
+    ∃ k', (p.workerNext t tk).tasks[t]? = some k' ∧ k'.phase = .inWorker ∧ k'.mustCancel = false ∧
+      k'.outcome.isSome = k.outcome.isSome ∧ k'.released = k.released ∧
+      ((k'.fut = .pending ∧ (k.outcome = none → (p.workerNext t tk).wakesOnCancel t = true)) ∨
+       (k'.fut = .cancelled ∧ k'.sched = true)) := by
+  have t1 : Tame p (((p.logEv (.next t)).modTask t fun k => { k with awaitsLeft := k.awaitsLeft - 1 }).runHooks tk.req
+      (p.reqOf tk).hooks.next) :=
+    ((tame_logEv p (.next t)).trans (tame_modTask _ t _)).trans (tame_runHooks _ _ _)
+  -- the record of `t` after the user code: same soft part as `k`
+  have hlt : t < p.tasks.length := by
+    cases hlt : decide (t < p.tasks.length) with
+    | true => exact of_decide_eq_true hlt
+    | false =>
+      have := of_decide_eq_false hlt
+      rw [List.getElem?_eq_none (Nat.le_of_not_lt this)] at hk; cases hk
+  obtain ⟨k1, hk1⟩ : ∃ k1, (((p.logEv (.next t)).modTask t fun k => { k with awaitsLeft := k.awaitsLeft - 1 }).runHooks tk.req
+      (p.reqOf tk).hooks.next).tasks[t]? = some k1 := by
+    have : t < (((p.logEv (.next t)).modTask t fun k => { k with awaitsLeft := k.awaitsLeft - 1 }).runHooks tk.req
+      (p.reqOf tk).hooks.next).tasks.length := by rw [t1.len]; exact hlt
+    exact ⟨_, List.getElem?_eq_getElem this⟩
+  obtain ⟨k0, hk0, hsoft⟩ := t1.soft t k1 hk1
+  rw [hk] at hk0; cases hk0
+  have hph1 : k1.phase = .inWorker := by
+    have := congrArg SoftP.phase hsoft
+    exact this.trans hph
+  have hout : k1.outcome.isSome = k.outcome.isSome := congrArg SoftP.hasOut hsoft
+  have hrel : k1.released = k.released := congrArg SoftP.released hsoft
+  refine ⟨?_, ?_⟩
+  · rw [C06_workerNext_eq]
+    refine t1.trans (tame_suspendTask_same _ t .inWorker ?_)
+    intro a ha
+    rw [hk1] at ha; cases ha
+    exact hph1
+  · rw [C06_workerNext_eq]
+    obtain ⟨k', a1, a2, a3, a4, a5, _, a7⟩ := suspendTask_at _ t .inWorker k1 hk1
+    refine ⟨k', a1, a2, a3, by rw [a4]; exact hout, by rw [a5]; exact hrel, ?_⟩
+    cases hm : k1.mustCancel with
+    | false =>
+      simp only [hm, Bool.false_eq_true, if_false] at a7
+      refine Or.inl ⟨a7.1, fun ho => ?_⟩
+      unfold wakesOnCancel
+      rw [a1]
+      have : k'.outcome = none := by
+        rw [a4]
+        rw [ho] at hout
+        cases hx : k1.outcome with
+        | none => rfl
+        | some o => rw [hx] at hout; cases hout
+      simp [this, a2, a7.1]
+    | true =>
+      simp only [hm, if_true] at a7
+      exact Or.inr a7
+
+/-- the same for the handle's step itself: under the conditions that select the branch, `stepInWorker` *is* that step -/
+theorem C06_later_await_step (p : Pool) (t : Nat) (tk : PTask)
+    (hc : (tk.fut == .cancelled || tk.mustCancel) = false) (hf : tk.fut = .ok) (ha : tk.awaitsLeft > 0) :
+    p.stepInWorker t tk = p.workerNext t tk := by
+  unfold stepInWorker
+  rw [if_neg (by rw [hc]; exact Bool.false_ne_true)]
+  simp only [hf, ha, if_true]
 
 /-! Non-vacuity -/
 /-- a worker with two further suspension points: released once (`N`), cancelled at its second suspension point -/
